@@ -212,6 +212,7 @@ class JobResult:
         self.incomplete = False
         self.wall = 0.0
         self.crash_notes = []
+        self.notes = []
 
 
 def run_job(pid, job, tier, deadline, env_extra=None):
@@ -263,7 +264,7 @@ def run_job(pid, job, tier, deadline, env_extra=None):
             p.wait()
             killed = True
             res.incomplete = True
-            res.errors.append('shard %d of %s killed at hard deadline' % (i, job['name']))
+            res.notes.append('shard %d of %s was still running 120 s after the wall-clock budget ended and was stopped (budget, not a verdict; hangs inside one case are caught by the per-case watchdog)' % (i, job['name']))
         out.close()
         err.close()
         got_done = False
@@ -330,6 +331,7 @@ def do_check(pid, tier, seed):
     known, fixed = load_known()
     total_stats, maxes, sigs, samples, violations, errors = {}, {}, set(), [], [], []
     per_job = []
+    notes = []
     incomplete = False
     for job in chk['jobs']:
         if job.get('tiers') and tier not in job['tiers']:
@@ -345,6 +347,7 @@ def do_check(pid, tier, seed):
                 samples.append({'job': job['name'], 'case': s})
         violations += r.violations
         errors += r.errors
+        notes += r.notes
         incomplete = incomplete or r.incomplete
         per_job.append({'job': job['name'], 'wall_s': round(r.wall, 2), 'stats': r.stats, 'maxes': r.maxes,
                         'distinct_signatures': len(r.sigs), 'complete': not r.incomplete})
@@ -403,6 +406,8 @@ def do_check(pid, tier, seed):
         'counters': total_stats, 'maxima': maxes, 'jobs': per_job,
         'known_findings_hit': [k for k, _ in knownhits],
     })
+    if notes:
+        cov['notes'] = notes[:20]
     if incomplete:
         cov['budget_note'] = 'wall-clock budget of %ds ended before every bound was completed; see jobs[].complete' % budget
     ev = {
